@@ -21,13 +21,15 @@ Import ListNotations.
    response modifier; the connection is kept unless the client asked to close. *)
 Theorem C03_pre_head_failure_is_502_via_resmod : forall fx e,
   classify e = UFail ->
-  handle3 fx e = ([WHead (mkHead (H502 true true) (x_id e) (if x_head e then CNone else CCL 0))], x_reqclose e).
+  handle3 fx e = ([WHead (mkHead (H502 true true) (x_id e) (if x_head e then CNone else CCL 0))],
+                  if x_connect e then false else x_reqclose e).
 Proof. exact pre_head_is_502. Qed.
 Print Assumptions C03_pre_head_failure_is_502_via_resmod.
 
 Theorem C03_pre_head_failure_characterised : forall e,
   classify e = UFail <->
-  x_out e = ORefused \/ x_out e = OGarbage \/ exists k, x_out e = OCut k /\ k < q_headlen (x_resp e).
+  x_out e = ORefused \/ x_out e = OTimeout \/ x_out e = OGarbage \/
+  exists k, x_out e = OCut k /\ x_connect e = false /\ k < q_headlen (x_resp e).
 Proof. exact classify_fail_iff. Qed.
 Print Assumptions C03_pre_head_failure_characterised.
 
@@ -36,7 +38,7 @@ Print Assumptions C03_pre_head_failure_characterised.
    client parses the 502 as a complete response followed by exactly the
    responses the rest of the script calls for. *)
 Theorem C03_502_then_connection_still_serves : forall e es,
-  classify e = UFail -> x_reqclose e = false ->
+  classify e = UFail -> stays_open_after_502 e ->
   (forall fx i, conn_stream fx i (e :: es) =
      (tag i [WHead (mkHead (H502 true true) (x_id e) (if x_head e then CNone else CCL 0))]
         ++ fst (conn_stream fx (S i) es),
@@ -45,6 +47,29 @@ Theorem C03_502_then_connection_still_serves : forall e es,
   p_state (expected 0 e) = PComplete.
 Proof. exact after_502_all. Qed.
 Print Assumptions C03_502_then_connection_still_serves.
+
+(* Every dial outcome of a (non-MITM) CONNECT other than success — refused, no
+   such host, timeout — is answered with that 502 and the connection is kept,
+   whatever kind of error the dial returned. *)
+Theorem C03_connect_dial_failure_is_502_connection_kept : forall fx e,
+  x_connect e = true -> (x_out e = ORefused \/ x_out e = OTimeout) ->
+  handle3 fx e = ([WHead (mkHead (H502 true true) (x_id e) (if x_head e then CNone else CCL 0))], false).
+Proof. exact connect_dial_failure. Qed.
+Print Assumptions C03_connect_dial_failure_is_502_connection_kept.
+
+(* The Warning value proxyutil.Warning builds (199 "martian" %q %q) is
+   well-formed per RFC 7234 5.5 for EVERY error text and date, whatever bytes
+   the origin managed to get echoed into the error: quotes, backslashes,
+   control bytes. *)
+Theorem C03_warning_wellformed : forall errtext date,
+  warning_ok (warning_value errtext date) = true.
+Proof. exact warning_value_wellformed. Qed.
+Print Assumptions C03_warning_wellformed.
+
+(* ... and the grammar check is not vacuous: an unescaped quote is rejected *)
+Theorem C03_warning_check_rejects_unescaped_quote :
+  warning_ok (list_ascii_of_string "199 ""martian"" ""malformed HTTP response ""SSH-2.0"""" ""Thu, 01 Jan 1970 00:00:00 GMT""") = false.
+Proof. exact unquoted_text_rejected. Qed.
 
 (* For EVERY script (any mixture of failures, any truncation offset, any
    re-chunking by the proxy) the k-th response a client parses out of the
@@ -90,6 +115,14 @@ Theorem C03_oracle_is_the_property : forall es obs,
 Proof. exact c03_ok_iff. Qed.
 Print Assumptions C03_oracle_is_the_property.
 
+(* the same on the raw observation (all Warning values as received): "carries a
+   Warning" means at least one value and every value well-formed *)
+Theorem C03_raw_oracle_is_the_property : forall es raws c,
+  c03_ok_raw es (raws, c) = true <->
+  (map observe raws, c) = (map project (fst (spec_view es)), snd (spec_view es)).
+Proof. exact c03_ok_raw_iff. Qed.
+Print Assumptions C03_raw_oracle_is_the_property.
+
 Theorem C03_model_satisfies_oracle : forall es, c03_ok es (model_obs true es) = true.
 Proof. exact model_obs_ok. Qed.
 Print Assumptions C03_model_satisfies_oracle.
@@ -97,18 +130,19 @@ Print Assumptions C03_model_satisfies_oracle.
 (* Non-vacuity: ok / cut inside the head / dial refused / cut inside a chunked
    body, on one connection. *)
 Definition example3 : list exch3 :=
-  [ mkEx3 1 false false OOk (mkResp3 200 FCL (list_ascii_of_string "hello") [] false 48) [];
-    mkEx3 2 false false (OCut 20) (mkResp3 200 FCL (list_ascii_of_string "never seen") [] false 49) [];
-    mkEx3 3 true false ORefused (mkResp3 200 FBodiless [] [] false 40) [];
-    mkEx3 4 false false (OCut 62) (mkResp3 200 FChunked (list_ascii_of_string "abcdefghij") [4] false 57) [2; 1];
-    mkEx3 5 false false OOk (mkResp3 200 FCL (list_ascii_of_string "unreached") [] false 48) [] ].
+  [ mkEx3 1 false false false OOk (mkResp3 200 FCL (list_ascii_of_string "hello") [] false 48) [];
+    mkEx3 2 false false false (OCut 20) (mkResp3 200 FCL (list_ascii_of_string "never seen") [] false 49) [];
+    mkEx3 3 true false false ORefused (mkResp3 200 FBodiless [] [] false 40) [];
+    mkEx3 6 false true false OTimeout (mkResp3 200 FBodiless [] [] false 40) [];
+    mkEx3 4 false false false (OCut 62) (mkResp3 200 FChunked (list_ascii_of_string "abcdefghij") [4] false 57) [2; 1];
+    mkEx3 5 false false false OOk (mkResp3 200 FCL (list_ascii_of_string "unreached") [] false 48) [] ].
 
 Example C03_example :
-  map classify example3 = [UComplete; UFail; UFail; UPartial (list_ascii_of_string "ab"); UComplete] /\
+  map classify example3 = [UComplete; UFail; UFail; UFail; UPartial (list_ascii_of_string "ab"); UComplete] /\
   map (fun p => (p_body p, p_state p, p_tags p)) (fst (client_view true example3)) =
     [ (list_ascii_of_string "hello", PComplete, [0; 0; 0; 0; 0; 0]);
-      ([], PComplete, [1]); ([], PComplete, [2]);
-      (list_ascii_of_string "ab", PIncomplete, [3; 3; 3; 3]) ] /\
+      ([], PComplete, [1]); ([], PComplete, [2]); ([], PComplete, [3]);
+      (list_ascii_of_string "ab", PIncomplete, [4; 4; 4; 4]) ] /\
   snd (client_view true example3) = true /\
   c03_ok example3 (model_obs true example3) = true.
 Proof. vm_compute. repeat split; reflexivity. Qed.
